@@ -406,6 +406,28 @@ impl Gen {
         out
     }
 
+    /// Sibling directories whose names extend one another with a byte below or above '/',
+    /// each with content, one of them with a nested subdirectory: the shape on which
+    /// component-wise and flat byte-wise path orders disagree.
+    pub fn extension_sibling_scaffold(&mut self, model: &TreeModel, cfg: &GenCfg) -> Vec<EditOp> {
+        let dirs = model.dirs();
+        let parent = self.r.pick(&dirs).clone();
+        let base = *self.r.pick(&["a", "b", "é", "dir", "z"]);
+        let ext = *self.r.pick(&[".", "-", " ", "!", "~", "0", "é", "+"]);
+        let d1 = join_apath(&parent, base);
+        let d2 = join_apath(&parent, &format!("{base}{ext}x"));
+        let sub = join_apath(&d1, *self.r.pick(&["s", "b", "~", " "]));
+        let mut out = Vec::new();
+        let mut dir = |g: &mut Gen, p: &str| EditOp::Put { path: p.to_string(), node: TNode { kind: NodeKind::Dir, meta: g.meta(cfg, true) } };
+        out.push(dir(self, &d1));
+        out.push(dir(self, &d2));
+        out.push(dir(self, &sub));
+        out.push(EditOp::Put { path: join_apath(&sub, "f"), node: self.file_node(cfg, None) });
+        out.push(EditOp::Put { path: join_apath(&d2, "g"), node: self.file_node(cfg, None) });
+        out.push(EditOp::Put { path: join_apath(&d1, "h"), node: self.file_node(cfg, None) });
+        out
+    }
+
     pub fn root_meta(&mut self, cfg: &GenCfg) -> Meta {
         let mut m = self.meta(cfg, true);
         // keep the root traversable in case the harness is ever run unprivileged
